@@ -1,15 +1,17 @@
 """C01 - decided on the shared engine-history corpus by the C01.* clauses of spec/Trace_Doc.tla."""
-from checks import _shared
+from checks import _shared, _core
 
 LEVEL = "model_checking"
 
 
 def run(ctx):
-  return _shared.run_clauses(ctx, "C01.", lambda e: e['tag'] == 'undo',
+  return _core.merge(ctx, _shared.run_clauses(ctx, "C01.", lambda e: e['tag'] == 'undo',
                              "every successful bundle is undone (immediately with probability 1/2, otherwise in the final reverse unwinding); non-trivial = distinct (user actions) of undone bundles; clause C01.restore: the document after ApplyUndoActions token-equals the document before the bundle, every table including metadata and formula columns",
                              corpora=_shared.BOTH,
-                             design=("MC_DocActions", "MC_DocActions_quick.cfg" if ctx.quick else "MC_DocActions.cfg"))
+                             design=("MC_DocActions", "MC_DocActions_quick.cfg" if ctx.quick else "MC_DocActions.cfg")), "C01.")
 
 
 def replay(ctx, data):
+  if "core_chunk" in data:
+    return _core.replay(ctx, data, "C01.")
   return _shared.replay_clause(ctx, data, "C01.")
